@@ -57,7 +57,7 @@ theorem mem_apply_true_of_mem (p : Prod) (a : Act) (s : St) (var : Str) (y : Ele
   | prepend v val app => exact mem_addPath_of_mem s.env v var _ y app h
   | set v val => rw [pathOf_apply_set]; exact h
   | alias k v => rw [pathOf_apply_alias]; exact h
-  | dep n o j v x t => exact h
+  | dep n o j v x t kl => exact h
 
 /-- an own element of another product survives any action done for `p` -/
 theorem mem_apply_of_mem_other (fwd : Bool) (p : Prod) (a : Act) (s : St) (var : Str) (q : Prod) (rel : Str)
@@ -75,7 +75,7 @@ theorem mem_apply_of_mem_other (fwd : Bool) (p : Prod) (a : Act) (s : St) (var :
       | lit t => simp [Val.elem] at he
     | set v val => rw [pathOf_apply_set]; exact h
     | alias k v => rw [pathOf_apply_alias]; exact h
-    | dep n o j v x t => exact h
+    | dep n o j v x t kl => exact h
 
 /-! ### unsetup direction: `Kept` -/
 
@@ -94,8 +94,8 @@ theorem acts_false_kept (cfg : Cfg) (rec : Rec) (hun : UnSpec cfg rec) (hrec : U
   | nil => intro s s' _ _ h; simp [acts] at h; subst h; exact Kept.refl _
   | cons a rest ih =>
     intro s s' hw hr h
-    by_cases hdep : ∃ n o j v x t, a = .dep n o j v x t
-    · obtain ⟨n, o, j, v, x, t, rfl⟩ := hdep
+    by_cases hdep : ∃ n o j v x t kl, a = .dep n o j v x t kl
+    · obtain ⟨n, o, j, v, x, t, kl, rfl⟩ := hdep
       simp only [acts] at h
       split at h
       · exact ih s s' hw hr h
@@ -116,7 +116,7 @@ theorem acts_false_kept (cfg : Cfg) (rec : Rec) (hun : UnSpec cfg rec) (hrec : U
         · rename_i s1 hr1
           simp only [Bool.false_and, Bool.false_eq_true, if_false] at h
           exact ih ⟨s.env, s.aliases, s.unaliased, s1.already⟩ s' hw hr h
-    · have hnd : ∀ n o j v x t, a ≠ .dep n o j v x t := fun n o j v x t e => hdep ⟨n, o, j, v, x, t, e⟩
+    · have hnd : ∀ n o j v x t kl, a ≠ .dep n o j v x t kl := fun n o j v x t kl e => hdep ⟨n, o, j, v, x, t, kl, e⟩
       rw [acts_cons_nondep rec cfg false depth noRec vro d a rest s hnd] at h
       obtain ⟨hs1, hrec1, _, _⟩ := apply_false_spec d.prod a s
       have hw1 := hw.of_sub hs1
@@ -159,8 +159,8 @@ theorem setup_keepHigher (cfg : Cfg) (rank : Name → Nat) (hdag : NameDag cfg.d
     ∀ fuel, KeepHigher cfg rank (setup cfg fuel) := by
   intro fuel fwd depth noRec vro n ver vexpr s s' ha h var p rel hp hm
   have hcl : ClosedAt cfg (fun _ m => rank m ≤ rank n) := by
-    intro d hd k hS _ g n' o j v x t hg
-    have := hdag d hd g n' o j v x t hg
+    intro d hd k hS _ g n' o j v x t kl hg
+    have := hdag d hd g n' o j v x t kl hg
     omega
   have hP : SubjInv cfg (fun _ m => rank m ≤ rank n) (fun e => Elem.own p rel ∈ e.pathOf var) := by
     refine ⟨?_, fun _ _ _ _ _ _ hp => hp, fun _ _ _ _ _ hp => hp⟩
@@ -191,7 +191,7 @@ theorem present_apply_true (cfg : Cfg) (Y : Name → Prop) (p : Prod) (a : Act) 
 theorem acts_true_present (cfg : Cfg) (rank : Name → Nat) (rec : Rec) (hrec : RecOK cfg rank rec)
     (hkh : KeepHigher cfg rank rec) (hps : PresSpec cfg rank rec) (Y : Name → Prop) (depth : Nat) (noRec : Bool)
     (vro : List VroEnt) (d : Decl) (hY : ∀ y, Y y → rank d.name < rank y) (l : List Act)
-    (hl : ∀ n o j v x t, Act.dep n o j v x t ∈ l → rank n < rank d.name) :
+    (hl : ∀ n o j v x t kl, Act.dep n o j v x t kl ∈ l → rank n < rank d.name) :
     ∀ s s', AlreadyOK cfg.db s.already → WellOwned cfg s.env → NoResidue Empty s.env →
       s.env.rec? d.name = some d.ver → Present cfg (fun m => Y m ∨ m = d.name) s.env →
       (∀ a ∈ l, a ∈ tableOf cfg d.prod) →
@@ -205,20 +205,20 @@ theorem acts_true_present (cfg : Cfg) (rank : Name → Nat) (rec : Rec) (hrec : 
     simp [acts] at h; subst h
     exact ⟨hp, fun _ _ h => h, by simp⟩
   | cons a rest ih =>
-    have hl' : ∀ n o j v x t, Act.dep n o j v x t ∈ rest → rank n < rank d.name :=
-      fun n o j v x t hm => hl n o j v x t (List.mem_cons_of_mem _ hm)
+    have hl' : ∀ n o j v x t kl, Act.dep n o j v x t kl ∈ rest → rank n < rank d.name :=
+      fun n o j v x t kl hm => hl n o j v x t kl (List.mem_cons_of_mem _ hm)
     intro s s' ha hw hn hr hp hc h
     have hc' : ∀ a ∈ rest, a ∈ tableOf cfg d.prod := fun a hm => hc a (List.mem_cons_of_mem _ hm)
-    by_cases hdep : ∃ n o j v x t, a = .dep n o j v x t
-    · obtain ⟨n, o, j, v, x, t, rfl⟩ := hdep
-      have hnr : rank n < rank d.name := hl n o j v x t (by simp)
+    by_cases hdep : ∃ n o j v x t kl, a = .dep n o j v x t kl
+    · obtain ⟨n, o, j, v, x, t, kl, rfl⟩ := hdep
+      have hnr : rank n < rank d.name := hl n o j v x t kl (by simp)
       have tail : ∀ s1 : St, AlreadyOK cfg.db s1.already → WellOwned cfg s1.env → NoResidue Empty s1.env →
           s1.env.rec? d.name = some d.ver → Present cfg (fun m => Y m ∨ m = d.name) s1.env →
           (∀ var rel, Elem.own d.prod rel ∈ s.env.pathOf var → Elem.own d.prod rel ∈ s1.env.pathOf var) →
           acts rec cfg true depth noRec vro d rest s1 = .ok s' →
           Present cfg (fun m => Y m ∨ m = d.name) s'.env ∧
           (∀ var rel, Elem.own d.prod rel ∈ s.env.pathOf var → Elem.own d.prod rel ∈ s'.env.pathOf var) ∧
-          (∀ var vals app rel, Act.prepend var vals app ∈ Act.dep n o j v x t :: rest → Val.own rel ∈ vals →
+          (∀ var vals app rel, Act.prepend var vals app ∈ Act.dep n o j v x t kl :: rest → Val.own rel ∈ vals →
             Elem.own d.prod rel ∈ s'.env.pathOf var) := by
         intro s1 h1 hw1 hn1 hr1 hp1 hk1 hacts
         obtain ⟨hp2, hk2, ha2⟩ := ih hl' s1 s' h1 hw1 hn1 hr1 hp1 hc' hacts
@@ -249,7 +249,7 @@ theorem acts_true_present (cfg : Cfg) (rank : Name → Nat) (rec : Rec) (hrec : 
           split at h
           · cases h
           · exact tail ⟨s.env, s.aliases, s.unaliased, s1.already⟩ h1 hw hn hr hp (fun _ _ h => h) h
-    · have hnd : ∀ n o j v x t, a ≠ .dep n o j v x t := fun n o j v x t e => hdep ⟨n, o, j, v, x, t, e⟩
+    · have hnd : ∀ n o j v x t kl, a ≠ .dep n o j v x t kl := fun n o j v x t kl e => hdep ⟨n, o, j, v, x, t, kl, e⟩
       rw [acts_cons_nondep rec cfg true depth noRec vro d a rest s hnd] at h
       obtain ⟨hn1, hw1⟩ := apply_true_spec cfg d.prod a s (hc a (by simp)) hr hw hn
       obtain ⟨hp2, hk2, ha2⟩ := ih hl' (a.apply true d.prod s) s' (by simpa using ha) hw1 hn1
@@ -341,12 +341,12 @@ theorem setup_presSpec (cfg : Cfg) (rank : Name → Nat) (hdag : NameDag cfg.db 
       exact present_of_kept hp hs (setup_false_kept cfg (k + 1) depth noRec vro n ver vexpr s s' hw h)
     | true =>
       rw [setup_succ_true] at h
-      cases hres : resolve cfg.db cfg.keep s.already n ver vexpr depth vro.length vro with
+      cases hres : resolve cfg.db cfg.path cfg.keep s.already n ver vexpr depth vro.length vro with
       | none => rw [hres] at h; cases h
       | error => rw [hres] at h; cases h
       | found d reason =>
         rw [hres] at h
-        obtain ⟨hc, hname⟩ := resolve_spec cfg.db cfg.keep s.already ha n ver vexpr depth _ _ _ _ hres
+        obtain ⟨hc, hname⟩ := resolve_spec cfg.db cfg.path cfg.keep s.already ha n ver vexpr depth _ _ _ _ hres
         exact install_present cfg rank hdag (setup cfg k) (setup_recOK cfg rank hdag k) (setup_keepHigher cfg rank hdag k)
           (setup_false_kept cfg k) ih Y depth noRec vro d reason hc (by rw [hname]; exact hY) _ s'
           (register_already cfg depth d reason s ha hc) (by rw [register_env]; exact hw)
